@@ -38,6 +38,9 @@ type finiteMap struct {
 	// could not be evaluated); the map form yields the zero value and found=false by language semantics.
 	Other  []ssa.Value
 	Frozen bool // map form: never written outside the package initialiser
+	// Lowered: function form only - the function compares strings.ToLower(parameter), i.e. the lookup is
+	// case-insensitive by construction and the keys are the lower-case spellings
+	Lowered bool
 }
 
 func (m *finiteMap) entry(k constant.Value) *fmEntry {
@@ -53,10 +56,53 @@ func (m *finiteMap) entry(k constant.Value) *fmEntry {
 // none of the constants fn compares its parameter with. Only branches on `param ==/!= const`, jumps and phis are
 // interpreted; the result values of the return reached are returned (phis resolved by the edge taken).
 func evalParamFunc(fn *ssa.Function, k constant.Value, other bool) ([]ssa.Value, bool) {
+	return evalParamFuncW(nil, fn, k, other)
+}
+
+// evalParamFuncW additionally interprets comma-ok lookups of the parameter in a package-level map literal that is
+// never modified (w != nil): the found flag is decided from the literal's keys, and a returned looked-up value is
+// replaced by the literal's element (nil stands for the zero value of a missing key).
+func evalParamFuncW(w *World, fn *ssa.Function, k constant.Value, other bool) ([]ssa.Value, bool) {
 	if fn == nil || len(fn.Blocks) == 0 || len(fn.Params) != 1 {
 		return nil, false
 	}
 	param := ssa.Value(fn.Params[0])
+	// lookupEntry: v is (an extract of) a lookup of the parameter in a frozen map literal
+	lookupEntry := func(v ssa.Value) (val ssa.Value, found, ok bool) {
+		if w == nil {
+			return nil, false, false
+		}
+		var lk *ssa.Lookup
+		switch x := v.(type) {
+		case *ssa.Lookup:
+			lk = x
+		case *ssa.Extract:
+			lk, _ = x.Tuple.(*ssa.Lookup)
+		}
+		if lk == nil || !isParamView(lk.Index, param) {
+			return nil, false, false
+		}
+		ld, isLd := lk.X.(*ssa.UnOp)
+		if !isLd {
+			return nil, false, false
+		}
+		g, isG := ld.X.(*ssa.Global)
+		if !isG || !w.globalFrozen(g) {
+			return nil, false, false
+		}
+		entries, okE := w.mapLiteralEntries(g)
+		if !okE {
+			return nil, false, false
+		}
+		if !other && k != nil {
+			for _, e := range entries {
+				if e.Key.Kind() == k.Kind() && constant.Compare(e.Key, token.EQL, k) {
+					return e.Vals[0], true, true
+				}
+			}
+		}
+		return nil, false, true
+	}
 	constOf := func(v ssa.Value) (constant.Value, bool) {
 		c, ok := strip(v).(*ssa.Const)
 		if !ok || c.Value == nil {
@@ -72,6 +118,12 @@ func evalParamFunc(fn *ssa.Function, k constant.Value, other bool) ([]ssa.Value,
 		switch x := v.(type) {
 		case *ssa.Const:
 			return boolConst(x)
+		case *ssa.Extract:
+			if x.Index == 1 {
+				if _, found, ok := lookupEntry(x); ok {
+					return found, true
+				}
+			}
 		case *ssa.UnOp:
 			if x.Op == token.NOT {
 				b, ok := evalCond(x.X, depth+1)
@@ -82,10 +134,10 @@ func evalParamFunc(fn *ssa.Function, k constant.Value, other bool) ([]ssa.Value,
 				return false, false
 			}
 			a, b := x.X, x.Y
-			if throughCell(strip(b)) == param {
+			if isParamView(b, param) {
 				a, b = b, a
 			}
-			if throughCell(strip(a)) != param {
+			if !isParamView(a, param) {
 				return false, false
 			}
 			kc, isK := constOf(b)
@@ -122,6 +174,15 @@ func evalParamFunc(fn *ssa.Function, k constant.Value, other bool) ([]ssa.Value,
 						return nil, false
 					}
 				}
+				if ex, isEx := rv.(*ssa.Extract); isEx && ex.Index == 0 {
+					if val, _, ok := lookupEntry(ex); ok {
+						rv = val
+					}
+				} else if lk, isLk := rv.(*ssa.Lookup); isLk && !lk.CommaOk {
+					if val, _, ok := lookupEntry(lk); ok {
+						rv = val
+					}
+				}
 				out[i] = rv
 			}
 			return out, true
@@ -154,6 +215,38 @@ func evalParamFunc(fn *ssa.Function, k constant.Value, other bool) ([]ssa.Value,
 	return nil, false
 }
 
+// isParamView: v is the parameter itself or strings.ToLower(parameter).
+func isParamView(v, param ssa.Value) bool {
+	v = throughCell(strip(v))
+	if v == param {
+		return true
+	}
+	if call, ok := v.(*ssa.Call); ok && calleeName(call) == "strings.ToLower" && len(call.Call.Args) == 1 {
+		return throughCell(strip(call.Call.Args[0])) == param
+	}
+	return false
+}
+
+// lowersParam: fn compares strings.ToLower(parameter) with constants.
+func lowersParam(fn *ssa.Function) bool {
+	if len(fn.Params) != 1 {
+		return false
+	}
+	param := ssa.Value(fn.Params[0])
+	for _, b := range fn.Blocks {
+		for _, ins := range b.Instrs {
+			if bin, ok := ins.(*ssa.BinOp); ok && (bin.Op == token.EQL || bin.Op == token.NEQ) {
+				for _, s := range []ssa.Value{bin.X, bin.Y} {
+					if throughCell(strip(s)) != param && isParamView(s, param) {
+						return true
+					}
+				}
+			}
+		}
+	}
+	return false
+}
+
 // comparedConsts: the constants fn's parameter is compared with (== / !=), sorted.
 func comparedConsts(fn *ssa.Function) []constant.Value {
 	if len(fn.Params) != 1 {
@@ -169,7 +262,7 @@ func comparedConsts(fn *ssa.Function) []constant.Value {
 				continue
 			}
 			for _, pr := range [][2]ssa.Value{{bin.X, bin.Y}, {bin.Y, bin.X}} {
-				if throughCell(strip(pr[0])) != param {
+				if !isParamView(pr[0], param) {
 					continue
 				}
 				if c, ok := strip(pr[1]).(*ssa.Const); ok && c.Value != nil && !seen[c.Value.ExactString()] {
@@ -299,7 +392,7 @@ func (w *World) finiteMaps(pkg string, keyOK, elemOK func(types.Type) bool) []*f
 			if len(ks) == 0 {
 				continue
 			}
-			fm := &finiteMap{Name: mem.Name(), Pos: mem.Pos(), Fn: mem, Frozen: true}
+			fm := &finiteMap{Name: mem.Name(), Pos: mem.Pos(), Fn: mem, Frozen: true, Lowered: lowersParam(mem)}
 			okAll := true
 			for _, k := range ks {
 				res, ok := evalParamFunc(mem, k, false)
